@@ -2,7 +2,9 @@ package mpx
 
 import (
 	"github.com/basecomplextech/baselibrary/bin"
+	"github.com/basecomplextech/baselibrary/status"
 	"github.com/basecomplextech/spec/internal/zzverif"
+	"github.com/basecomplextech/spec/proto/pmpx"
 )
 
 // C18, mpx channel state pool: the inductive recycling step. A channel state with arbitrary field
@@ -60,5 +62,48 @@ func ZZ_C18_ChannelStateRecycle() {
 	_, ok, st := n.recvQueue.Read()
 	zzverif.Assert(!ok && st.OK(), "recycled channel state delivers the previous owner's data")
 	zzverif.Assert(n.sender.ch == n && n.sender.conn == internalConn(conn2), "sender bound to another state")
+	zzverif.Reach("done")
+}
+
+// ZZ_C18_HandlerPool: the pooled channelHandler of connection 1 runs (handler result OK / error /
+// panic); right after the moment the handler object becomes available in the pool, connection 2
+// acquires a handler (gets that object). The run of connection 1 must not touch the object any more:
+// its error report goes to connection 1's logger, connection 2's logger and handler object are
+// untouched.
+func ZZ_C18_HandlerPool() {
+	e1 := zzNewConn(false, nil, true)
+	e2 := zzNewConn(false, nil, true)
+	e1.shaken.Set()
+	workerPool = &e1.workers.ZZGatedPool
+	id := bin.Bin128{{1}, {1}}
+	open, err := pmpx.BuildChannelOpen(pmpx.NewMessageWriterBuffer(ZZ_AcquireBuffer()), id, nil, 64)
+	zzverif.Assume(err == nil)
+	zzverif.Assume(e1.c.receiveMessage(open, false).OK())
+	mode := zzverif.Choice(3)
+	switch mode {
+	case 1:
+		e1.handler.ret = status.Status{Code: status.CodeError, Message: "app"}
+	case 2:
+		e1.handler.panic = true
+	}
+	orig := channelHandlerPool
+	pool := &zzPool[*channelHandler]{newFn: func() *channelHandler { return orig.New() }}
+	channelHandlerPool = pool
+	defer func() { channelHandlerPool = orig }()
+	var h2 *channelHandler
+	pool.hook = func() { h2 = newChannelHandler(e2.c, nil) }
+	zzverif.Assert(e1.workers.runNext(nil), "handler-runs")
+	zzverif.Assert(e1.handler.calls == 1, "handler-invoked-once")
+	zzverif.Assert(h2 != nil, "handler object released after its run")
+	zzverif.Assert(h2.c == e2.c && h2.ch == nil, "second owner's handler object was modified by the first owner's run")
+	zzverif.Assert(e2.logger.errors == 0, "first owner's report landed on the second owner's connection")
+	want := 0
+	if mode != 0 {
+		want = 1
+	}
+	zzverif.Assert(e1.logger.errors == want, "handler error/panic reported exactly once on its own connection")
+	if mode == 1 {
+		zzverif.Assert(len(e1.logger.msgs) == 1 && e1.logger.msgs[0] == "Channel error" && e1.logger.sts[0].Message == "app", "handler status reported as it was returned")
+	}
 	zzverif.Reach("done")
 }
